@@ -643,16 +643,19 @@ func (l *Lexer) skipComment(noPanic bool) bool {
 	r, _ := utf8.DecodeRuneInString(l.Buffer[l.pos:])
 	switch {
 	case r == '#' || r == '/' && l.peekIs(1, '/') || r == '-' && l.peekIs(1, '-'):
-		return l.skipCommentUntil("\n", false, noPanic)
+		return l.skipCommentUntil(0, "\n", false, noPanic)
 	case r == '/' && l.peekIs(1, '*'):
-		return l.skipCommentUntil("*/", true, noPanic)
+		return l.skipCommentUntil(2, "*/", true, noPanic)
 	default:
 		return false
 	}
 }
 
-func (l *Lexer) skipCommentUntil(end string, mustEnd bool, noPanic bool) bool {
+// skipCommentUntil skips a comment up to and including end. opener is the length of the part of the
+// comment opener that end must not overlap (e.g. "/*/" is not a complete comment).
+func (l *Lexer) skipCommentUntil(opener int, end string, mustEnd bool, noPanic bool) bool {
 	pos := token.Pos(l.pos)
+	l.skipN(opener)
 	for !l.eof() {
 		if l.slice(0, len(end)) == end {
 			l.skipN(len(end))
